@@ -140,6 +140,7 @@ func runC02(c *Ctx) {
 	c02R2(c)
 	c02R3(c)
 	c02ToleratedSentinels(c)
+	c02TaskContext(c)
 	c02Go(c)
 }
 
@@ -152,7 +153,9 @@ func c02R1R4(c *Ctx) {
 		c.LostAnchor(R1, "traversal function (claims the node with Tracker.TryCommit and dispatches with syncutil.Go) in package ~")
 		return
 	}
+	c.Expect("C02.R1.done-implies-present", 1)
 	for _, T0 := range ts {
+		c02DonePresent(c, T0)
 		// the function that dispatches the successors and pushes the node: the
 		// traversal function itself, or the helper it hands the claimed node to
 		T := c02DispatchBody(T0, 2)
@@ -937,6 +940,14 @@ func c02Go(c *Ctx) {
 }
 
 var c02Mutants = []Mutant{
+	{Name: "foreign-layer-marked-done-unpushed", File: "copy.go",
+		Old:    "\t\t// find successors while non-leaf nodes will be fetched and cached\n",
+		New:    "\t\tif descriptor.IsForeignLayer(desc) {\n\t\t\treturn nil\n\t\t}\n\t\t// find successors while non-leaf nodes will be fetched and cached\n",
+		Expect: "C02.R1.done-implies-present"},
+	{Name: "task-ignores-its-context", File: "copy.go",
+		Old:    "\tfn = func(ctx context.Context, region *syncutil.LimitedRegion, desc ocispec.Descriptor) (err error) {",
+		New:    "\tfn = func(_ context.Context, region *syncutil.LimitedRegion, desc ocispec.Descriptor) (err error) {",
+		Expect: "C02.R4.task-context"},
 	{Name: "abort-closes-done-on-failure", File: "copy.go",
 		Old:    "\t\t\tif err == nil {\n\t\t\t\t// mark the content as done on success\n\t\t\t\tclose(done)\n\t\t\t}",
 		New:    "\t\t\tabort := func(ch chan struct{}) { close(ch) }\n\t\t\tif err == nil {\n\t\t\t\tclose(done)\n\t\t\t} else {\n\t\t\t\tabort(done)\n\t\t\t}",
